@@ -16,7 +16,13 @@ META = {
     "call of 0-5 positional arguments, every subset of <= 4 keywords from parameter names + one unknown name, *seq of "
     "length 0-2 before/after the keywords, **map (empty, unknown name, a parameter, a name colliding with an explicit "
     "keyword), as expression, {% call %}, {% call(x) %} and with caller=<macro> keyword.  The rendered body shows every "
-    "bound value, the varargs tuple, the sorted kwargs and the caller result; it must equal R-bind on all three routes.",
+    "bound value, the varargs tuple, the sorted kwargs and the caller result; it must equal R-bind on all three routes.  "
+    "Family site: every body x a small call alphabet (<= 2 positional, <= 1 keyword (thorough 2), **map, all four call forms) "
+    "written at each of 14 enclosing frames (top, if, for, block, block+if/for/with, for+block, with, set block, filter "
+    "block, autoescape, macro body, call-block body) must bind exactly as the bare call.  Family mutdef: macros "
+    "m(x, acc=<list default>, seen=<dict default>) (constant literals, literals naming x or an outer variable) whose body "
+    "mutates the bound value, every history of <= 3 (thorough 4) calls that pass or leave out each parameter, run inline, "
+    "in a loop, through template.module and as call-block parameters; every call must start from a fresh default.",
     "note": "Values are distinct short strings; literal duplicate keywords are C01's (F12); async environments are C09's; "
     "autoescape off.  Route 'template' renders a call template compiled once per worker with the macro passed in as a "
     "variable (the imported-macro situation); route 'inline' compiles definition and call in one template in a fresh "
@@ -102,7 +108,118 @@ def _script_python(sig, call):
             f"print(repr(str(mod.m({args}{kwsrc}))))\n").replace("mod.m(, ", "mod.m(")
 
 
+def shard_site(arg) -> core.Part:
+    """family "site": one parameter list x one enclosing frame; every body x every call shape."""
+    _, params, site, inline_k, quick = arg
+    import jinja2
+
+    p = core.Part()
+    mods = []
+    for sig in G.signatures([params]):
+        mods.append((sig, jinja2.Environment().from_string(G.macro_source(sig)).module))
+    env = jinja2.Environment()
+    outcomes = set()
+    n = ninline = ncb = 0
+    for ci, call in enumerate(G.site_calls(params, quick)):
+        csrc = G.site_source(site, G.call_source(call))
+        tmpl = env.from_string(csrc)
+        rf, newctx = tmpl.root_render_func, tmpl.new_context
+        for si, (sig, mod) in enumerate(mods):
+            want = G.ref_call(sig, call)
+            try:
+                got_t = ("ok", "".join(rf(newctx({"m": mod.m, "cbx": mod.cbx, "q": "OUTq", "r": "OUTr"}))))
+            except Exception as e:  # noqa: BLE001
+                got_t = ("exc", type(e).__name__)
+            routes = [("template", got_t)]
+            if (si + ci) % inline_k == 0:
+                full = G.macro_source(sig) + csrc
+                routes.append(("inline", _outcome(lambda: jinja2.Environment().from_string(full).render())))
+                ninline += 1
+            n += 1
+            if call[4] != "expr":
+                ncb += 1
+            outcomes.add(want)
+            for route, got in routes:
+                if got != want:
+                    e = want[1] if want[0] == "exc" else "ok"
+                    g = got[1] if got[0] == "exc" else ("ok" if want[0] == "exc" else "wrong-output")
+                    src = G.macro_source(sig) + csrc
+                    p.violation(f"C06/site/{site}/{route}/{call[4]}/exp-{e}-got-{g}", {
+                        "msg": f"macro m({G.sig_source(sig[0])}) body uses {sorted(sig[1])}; call written at site "
+                               f"{site!r}: {csrc!r} [{route}]: got {got!r}, expected {want!r}",
+                        "macro": G.macro_source(sig), "call": csrc, "route": route,
+                        "script": "import jinja2\nenv = jinja2.Environment()\n"
+                                  f"src = {src!r}\nprint(repr(env.from_string(src).render()))\n"})
+        if mods and site != "top" and call[4] != "expr" and len(p.samples) < 2:
+            p.sample({"family": "site", "site": site, "macro_params": G.sig_source(params), "call": csrc})
+    for o in outcomes:
+        p.sig(("site", o))
+    p.evals += n + ninline
+    p.count("site_cases", n)
+    p.count("site_inline_cases", ninline)
+    p.count("site_call_block_cases", ncb)
+    p.count("site_call_block_cases:" + site, ncb)
+    return p
+
+
+def shard_mutdef(arg) -> core.Part:
+    """family "mutdef": one macro with list/dict defaults x every history of calls x every route."""
+    _, msig, hmax = arg
+    import jinja2
+
+    p = core.Part()
+    n = nshared = 0
+    for hist in G.mut_histories(msig, hmax):
+        want = G.mut_ref(msig, hist)
+        # a constant list/dict default left out by >= 2 calls of the same macro object
+        shared = any(G.mut_is_constant(d) and sum(1 for c in hist if not c[j]) >= 2 for j, (_, d) in enumerate(msig))
+        routes = ["inline", "callblock", "python"]
+        if not any(e for c in hist for e in c):
+            routes.append("loop")
+        for route in routes:
+            if route == "python":
+                msrc = G.mut_macro_source(msig)
+
+                def f():
+                    mod = jinja2.Environment().from_string(msrc).module
+                    return "|".join(str(mod.m("v%d" % (i + 1), **G.mut_python_kwargs(msig, c))) for i, c in enumerate(hist))
+                calls = ", ".join("str(mod.m(%r%s))" % ("v%d" % (i + 1), "".join(
+                    f", {k}={v!r}" for k, v in G.mut_python_kwargs(msig, c).items())) for i, c in enumerate(hist))
+                script = ("import jinja2\n"
+                          f"mod = jinja2.Environment().from_string({msrc!r}).module\nprint(repr('|'.join([{calls}])))\n")
+                shown = f"module of {msrc!r}: {calls}"
+            else:
+                src = G.mut_source(msig, hist, route)
+
+                def f(src=src):
+                    return jinja2.Environment().from_string(src).render()
+                script = f"import jinja2\nprint(repr(jinja2.Environment().from_string({src!r}).render()))\n"
+                shown = repr(src)
+            got = _outcome(f)
+            n += 1
+            if shared:
+                nshared += 1
+            if got != want:
+                g = got[1] if got[0] == "exc" else "wrong-output"
+                kinds = "+".join(nm + ("-const" if G.mut_is_constant(d) else "-dyn") for nm, d in msig)
+                p.violation(f"C06/mutdef/{route}/{kinds}/got-{g}", {
+                    "msg": f"m({G.mut_params_source(msig)}) called {len(hist)}x, explicit={hist!r} [{route}] {shown}: "
+                           f"got {got!r}, expected {want!r} (defaults are evaluated at every call)",
+                    "route": route, "script": script})
+        p.sig(("mutdef", want))
+        if shared and len(hist) == 2 and len(p.samples) < 1:
+            p.sample({"family": "mutdef", "source": G.mut_source(msig, hist, "inline"), "expected": list(want)})
+    p.evals += n
+    p.count("mutdef_cases", n)
+    p.count("mutdef_cases_repeating_an_omitted_constant_default", nshared)
+    return p
+
+
 def shard(arg) -> core.Part:
+    if arg[0] == "site":
+        return shard_site(arg)
+    if arg[0] == "mutdef":
+        return shard_mutdef(arg)
     fam, names, lo, hi, inline_k, quick = arg
     npairs = ninline = 0
     import jinja2
@@ -205,6 +322,11 @@ def plan(quick):
         per = max(8, int(100000 / max(1, nsig)))
         for lo in range(0, ncalls, per):
             shards.append((fam, ns, lo, min(ncalls, lo + per), inline_k, quick))
+    for pl in G.site_param_lists(quick):
+        for site, _, _ in G.SITES:
+            shards.append(("site", pl, site, 3 if quick else 1, quick))
+    for msig in G.mut_signatures():
+        shards.append(("mutdef", msig, 3 if quick else 4))
     return nmax, shards
 
 
@@ -225,9 +347,29 @@ def run(ctx: core.Ctx):
         "the call — undefined unless the caller supplied the later parameter; an outer variable of the same name is not consulted",
         "route 'template' shares one Environment and compiled call templates inside a worker; routes 'python'/'inline' use a fresh Environment per signature / per case",
     ]
+    ctx.assumptions += [
+        "family site: a loop site iterates once and a block is rendered where it is defined (no inheritance), so the "
+        "call happens exactly once at every site; what it binds is R-bind's answer for the bare call",
+        "family mutdef: explicit arguments are fresh literals; `acc.append(x)` / `seen.update({x: 'S'})` are the only mutations",
+    ]
     ctx.pmap(shard, shards)
+    for site, _, _ in G.SITES:
+        if not ctx.counters.get("site_call_block_cases:" + site):
+            raise core.HarnessError(f"family site: no call block was exercised at site {site!r}")
+    if not ctx.counters.get("site_inline_cases"):
+        raise core.HarnessError("family site: inline route never ran")
+    if not ctx.counters.get("mutdef_cases_repeating_an_omitted_constant_default"):
+        raise core.HarnessError("family mutdef: no history left a constant list/dict default out twice")
+    ctx.cov["site_family"] = {"sites": [n for n, _, _ in G.SITES], "cases": ctx.counters.get("site_cases", 0),
+                              "inline_cases": ctx.counters.get("site_inline_cases", 0),
+                              "call_block_cases": ctx.counters.get("site_call_block_cases", 0)}
+    ctx.cov["mutdef_family"] = {"macros": len(list(G.mut_signatures())), "max_history": 3 if ctx.quick else 4,
+                                "routes": ["inline", "callblock", "python", "loop"],
+                                "cases": ctx.counters.get("mutdef_cases", 0),
+                                "cases_repeating_an_omitted_constant_default":
+                                    ctx.counters.get("mutdef_cases_repeating_an_omitted_constant_default", 0)}
     ctx.cov["bounds"] = {"max_parameters": nmax, "max_defaults": 3, "max_positional": 4 if ctx.quick else 5, "max_keywords": 4,
-                         "quick_reductions": bool(ctx.quick), "families": list(FAMILIES),
+                         "quick_reductions": bool(ctx.quick), "families": list(FAMILIES) + ["site", "mutdef"],
                          "call_forms": ["expr", "call0", "callx", "kwcb", "callv (selfref family)"]}
     ctx.cov["signatures"] = ctx.counters.get("signatures", 0)
     ctx.cov["signature_x_call"] = ctx.counters.get("calls", 0)
